@@ -55,7 +55,7 @@ Example C10_example :
   let cfg := {| d_table := {| t_router := Curly; t_services := [ {| s_root := L "/"; s_routes :=
                    [ {| r_id := 1; r_method := L "GET"; r_rel := L "/a"; r_consumes := []; r_produces := [];
                         r_conds := []; r_noct := []; r_enc := None |} ] |} ] |};
-                d_cfilters := [ {| f_id := L "c0"; f_pre := []; f_pass := true; f_post := [APanic (L "late")]; f_fresh := false; f_mw := 0 |} ];
+                d_cfilters := [ {| f_id := L "c0"; f_pre := []; f_pass := true; f_post := [APanic (L "late")]; f_fresh := false; f_mw := 0; f_wrap := false |} ];
                 d_sfilters := []; d_rfilters := []; d_handlers := [(1%Z, [AWrite (L "partial")])];
                 d_encoding := true; d_recover := true; d_recover_script := [AStatus 500; AWrite (L "<r>")]; d_condpanic := []; d_plain := [] |} in
   let req := {| rq_method := L "GET"; rq_path := L "/a"; rq_headers := [(H_AcceptEncoding, L "gzip")]; rq_clen := 0 |} in
